@@ -366,6 +366,8 @@ def run(rep):
     if crashes:
         rep.crash = crashes[0]
     from pgv.replayers import c16 as R16
+    for res in R16.steep_step_cases():
+        rep.add_bounded(f"{P}/bounded.{res['name']}", res['ok'], res['detail'], replay={'kind': 'c16.steep', 'name': res['name']})
     for res in R16.real_isotherm_cases():
         rep.add_bounded(f"{P}/bounded.{res['name']}", res['ok'], res['detail'], replay={'kind': 'c16.real', 'name': res['name']})
     for res in R16.model_isotherm_cases():
